@@ -336,7 +336,12 @@ def _pre(rng, sr, n):
 # (file rate, time expansion): recording rate = fr * te is an integer
 _RATES = [(8, (1, 1)), (16, (1, 1)), (16, (1, 2)), (4, (2, 1)), (32, (1, 4)), (256, (1, 1)), (1024, (1, 1)),   # exact
           (8000, (1, 1)), (10, (1, 1)), (12, (1, 1)), (44100, (1, 1)), (22050, (1, 1)), (22050, (2, 1)), (48000, (1, 1)),
-          (4410, (10, 1)), (25600, (10, 1)), (96000, (1, 2)), (8, (10, 1)), (500, (1, 1)), (19200, (10, 1))]
+          (4410, (10, 1)), (25600, (10, 1)), (96000, (1, 2)), (8, (10, 1)), (500, (1, 1)), (19200, (10, 1)),
+          (93, (1, 1)), (31, (3, 1)), (99, (1, 1)), (123, (1, 1))]
+# integer rates r with 1/(1.0/r) < r in doubles (int(1/step) = r - 1; 25 kHz, 50 kHz ... have the same property, but a
+# one-step effect on a resampled axis needs >= 2r output samples, which only small rates allow within the encoding)
+_ODD_RATES = [(93, (1, 1)), (31, (3, 1)), (99, (1, 1)), (105, (1, 1)), (117, (1, 1)), (123, (1, 1)), (186, (1, 1)), (93, (2, 1)),
+              (210, (1, 1)), (245, (1, 1))]
 
 
 def _tdens(sr, rng):
@@ -392,7 +397,8 @@ def random_cases(rng, tier):
             e = rng.randrange(s + int(2 * per) + 1, int((n + 4) * per) + 2)
         wmax = max(2, int(min(n, 64) * per * rng.choice([0.25, 0.5, 1.2])))
         w = rng.randrange(max(1, int(per)), wmax + 1) if wmax >= per else max(1, int(per))
-        h = rng.choice([w, max(1, w // 2), max(1, w // 4), rng.randrange(1, w + 1), rng.randrange(1, w + 1)])
+        h = rng.choice([w, max(1, w // 2), max(1, w // 4), rng.randrange(1, w + 1), rng.randrange(1, w + 1),
+                        rng.randrange(w + 1, 2 * w + 2), w + max(1, int(per))])          # also hops longer than the window
         if w * sr >= 2**30:
             continue
         yield _case("spec", fr, te, tden, rng.choice([1, 2]), n, s, e, src=src, w=w, h=h, pre=_pre(rng, sr, n))
@@ -400,6 +406,14 @@ def random_cases(rng, tier):
     for fr, tden, w, h, n in [(22050, 10000, 123, 41, 22050), (44100, 10000, 100, 33, 30000), (8000, 1000, 10, 3, 4000),
                               (48000, 100000, 1234, 411, 24000)]:
         yield _case("spec", fr, (1, 1), tden, 1, n, 0, 0, src="rec", w=w, h=h)
+    # long enough resamples at the rates of _ODD_RATES: at least 2.2 x rate output samples
+    for fr, te in (_ODD_RATES if tier != "quick" else rng.sample(_ODD_RATES, 4)):
+        sr = fr * te[0] // te[1]
+        mult = rng.choice([2, 3, 4])
+        n = rng.randrange(int(2.2 * sr / mult) + 2, int(3 * sr / mult) + 4)
+        src = rng.choice(["rec", "clip"])
+        s, e = (0, 0) if src == "rec" else (rng.randrange(0, 12), 4 * (n + 6))
+        yield _case("resamp", fr, te, 4 * sr, 1, n + (0 if src == "rec" else 4), s, e, src=src, target=mult * sr + rng.choice([0, 0, 1, 7]))
     for _ in range(n_res):
         fr, te = rng.choice(_RATES)
         sr = fr * te[0] // te[1]
